@@ -206,7 +206,7 @@ def run_check(prop, tier, seed, only=None, nproc=None):
         with ctx.Pool(min(nproc, len(specs)), maxtasksperchild=1) as pool:
             for r in pool.imap_unordered(_run_job, specs):
                 results.append(r)
-                sys.stderr.write('[%s] job %-40s paths=%-6s obligations=%-6s cex=%d %s %.1fs\n' % (prop, r['name'], r.get('paths'), r.get('obligations'), len(r.get('cex', [])), 'INCONCLUSIVE' if r.get('inconclusive') else '', r.get('wall_s', 0)))
+                if os.environ.get('VERIF_VERBOSE'): sys.stderr.write('[%s] job %-40s paths=%-6s obligations=%-6s cex=%d %s %.1fs\n' % (prop, r['name'], r.get('paths'), r.get('obligations'), len(r.get('cex', [])), 'INCONCLUSIVE' if r.get('inconclusive') else '', r.get('wall_s', 0)))
     results.sort(key=lambda r: r['name'])
     # ---- counterexamples: confirm natively, then match against known findings
     known = load_known()
